@@ -156,6 +156,32 @@ def _body_direct(rep, case):
     judge(kind, f, case, resp, f"C08/{kind}")
 
 
+def body_mixed(rep, case):
+    """Replies of different kinds decoded one after the other in one process (and on one connection per API type):
+    what an earlier reply contained must not leak into a later one."""
+    from aioswitcher.api import messages
+    cls = {"state1": messages.SwitcherStateResponse, "shutter": messages.SwitcherShutterStateResponse,
+           "thermostat": messages.SwitcherThermostatStateResponse}
+    seq = case["replies"]
+    rep.tick("mixed", key=case, nontrivial=len({r["reply"] for r in seq}) >= 2, sample=case,
+             labels=(f"kinds={len({r['reply'] for r in seq})}",))
+    for i, r in enumerate(seq):
+        kind, f = r["reply"], r["fields"]
+        one = {"replies": seq[:i + 1]}
+        if kind == "login":
+            resp = messages.SwitcherLoginResponse(replies.login(f["session"], f["length"], r["salt"]))
+            expect("C08/login/after-other-replies", one, "session_id", f["session"], resp.session_id)
+            continue
+        resp = cls[kind](encode(kind, f, r["salt"]))
+        judge(kind, f, one, resp, f"C08/{kind}/after-other-replies")
+
+
+def strat_mixed():
+    one = st.sampled_from(["state1", "shutter", "thermostat", "login"]).flatmap(
+        lambda k: st.builds(lambda f, salt: {"reply": k, "fields": f, "salt": salt}, FIELDS[k], st.integers(1, 250)))
+    return st.lists(one, min_size=2, max_size=8).map(lambda seq: {"replies": seq})
+
+
 # -- strategies -------------------------------------------------------------------------------
 secs = st.one_of(st.integers(0, 86399), st.sampled_from([0, 1, 59, 60, 255, 256, 3599, 3600, 65535, 65536, 86399]))
 power = st.one_of(st.integers(0, 65535), st.sampled_from([0, 1, 109, 110, 111, 219, 220, 255, 256, 2600, 65535]))
@@ -185,6 +211,7 @@ def subchecks(tier):
     big = tier == "thorough"
     subs = [Sub(f"api/{k}", body_api, strategy=strat(k, True), n=20_000 if big else 2000, shards=8 if big else 2)
             for k in ("state1", "shutter", "thermostat")]
+    subs.append(Sub("mixed", body_mixed, strategy=strat_mixed, n=100_000 if big else 1500, shards=8 if big else 2))
     subs += [Sub(f"direct/{k}", body_direct, strategy=strat(k, False), n=200_000 if big else 1500, shards=8 if big else 1)
              for k in ("state1", "shutter", "thermostat", "login")]
     return subs
